@@ -52,7 +52,7 @@ def any_case(r, k, G, acc, start, s, chk, indel, heap=1000):
 
 
 def check_graph(r, k, G, n, starts, thin=99):
-    acc = U.A(G)
+    acc = U.A_reuse(G)
     for start in starts:
         ws = [w for w in U.walks_upto(G, start, n) if len(w) >= k]
         for w in ws:
